@@ -473,6 +473,10 @@ func Encode(w io.Writer, file *File, arch binary.ByteOrder) error {
 	if err != nil {
 		return fmt.Errorf("encode failed: Header: %w", err)
 	}
+	if file.Header.Size == headerSizeCRC {
+		// MarshalBinary computes the CRC on a copy of the header.
+		file.Header.CRC = le.Uint16(hdr[headerSizeNoCRC:])
+	}
 
 	// Calculate file CRC
 	crc := dyncrc16.New()
